@@ -11,6 +11,11 @@ import (
 	"github.com/obolnetwork/charon/zzverif/vrt"
 )
 
+// VerifHarnesses lists the harness entry points of this package (used by the native replay test).
+var VerifHarnesses = map[string]func(){
+	"VerifC07Single": VerifC07Single,
+}
+
 // vSigned is a minimal SignedData: a one-byte signing root and an opaque signature id.
 type vSigned struct {
 	Root byte
